@@ -43,16 +43,29 @@ META = {
             "with 2x rho''/rho' from 1e-14 to 4, every corrector/kernel object is called repeatedly, half of the calls under "
             "no_grad; select: all forms of kernel=/corrector= (None, module, list, tuple, None entries, wrong lengths) for 1..3 "
             "residual tensors on GN and LM, two steps per optimiser. A case is non-trivial when it has a non-zero input; "
-            "distinct by (stream, kernel, dtype, rank/shape, d, p, regime, number of masked items, quantised parameter).",
+            "distinct by (stream, kernel, dtype, rank/shape, d, p, regime, number of masked items, quantised parameter). "
+            "HARDENING: a deterministic, seed-independent corner corpus runs first (threshold / even / log-uniform sweeps over the "
+            "whole overflow-free range x in [16*min_normal*max(1,delta^2), max/16*min(1,delta^2)], every negative value at every position "
+            "class, one mixed-regime batch (zero/tiny/threshold+-8ulp/ordinary/large/maximal) per corrector x kernel x dtype x "
+            "d in {1,3,6}, the full memory-layout x batch-rank x d matrix on one object, every syntactic form of kernel=/corrector=); "
+            "history stream: one kernel/corrector object through 4-9 calls with dtype, batch rank/extents (incl. 0), d, p, grad mode "
+            "and memory layout (contiguous, transposed, strided, slice of a buffer, expanded, R-is-J alias, in-place update of the "
+            "tensors of the previous call) all varying; select: 3 steps per optimiser with targets, parameters and model constants "
+            "updated in place between steps.",
     "trusted": ["torch autograd of the kernel's forward (rho', rho'') is an external contract: the model uses closed forms of "
                 "rho', rho'' that are *proved* (HasDerivAt) to be the derivatives of the modelled forward; the fast/triggs "
                 "streams compare the real autograd-based outputs against them on every run",
                 "mpmath 50-digit closed forms (oracle side only; its derivative formulas are self-tested by numerical "
                 "differentiation at start-up)",
-                "the linear test model of the select stream (Jacobian known exactly) and a recording solver"],
+                "the linear test model of the select stream (Jacobian known exactly) and a recording solver",
+                "history / select-history oracles compare with a FRESH object on contiguous copies (16 eps) and with the call on one item alone"],
     "assumptions": ["kernel parameters satisfy the constructors' asserts (delta > 0, a > 0, b < 0) and a/|b| <= 50; Arctan: delta != 0",
                     "corrector theorems: rho' >= 0 (FastTriggs) resp. rho' > 0 (Triggs) on [0, inf); rho'' arbitrary",
-                    "user kernels act element-wise (the model's rho is a function of one item's squared norm)"],
+                    "user kernels act element-wise (the model's rho is a function of one item's squared norm)",
+                    "input domain = every intermediate of the documented formula (x/delta^2, (x/delta^2)^2 for Arctan, 1/delta^2 + x, "
+                    "|R_i|^2) is finite and normal in the dtype; beyond it the float code overflows / goes subnormal (e.g. "
+                    "PseudoHuber(1e-6)(1e37) = inf in float32) — representability, like rounding, is not modelled; rho' below the "
+                    "subnormal spacing / delta^2 is compared with that absolute floor"],
     "partial": ["IEEE rounding is not modelled: the theorems are over the reals; the float clauses (closed form, rho(0)=0, "
                 "monotone, finite, both corrector identities) are *measured* on the generated inputs at 64*eps*scale, scale = "
                 "largest intermediate magnitude of the documented formula (x (|u|+1) for Tolerant's exp, x4 for the user "
@@ -326,6 +339,17 @@ def x_cap(spec, dtn) -> float:
     return big
 
 
+MINNORMAL = {"float64": 2.0 ** -1022, "float32": 2.0 ** -126}
+
+
+def x_floor(spec, dtn) -> float:
+    """smallest positive input whose quotient x / delta^2 is still a normal number of the dtype (below, the quotient is
+    subnormal and loses relative precision before any formula is applied — representability, not modelled)"""
+    k, p = spec["kind"], spec["p"]
+    c = p[0] * p[0] if k in ("pseudohuber", "cauchy", "arctan") else 1.0
+    return 16 * MINNORMAL[dtn] * max(1.0, c)
+
+
 def sweep_mults(dtn, s0):
     """s0 * (1 +- 2^-k), k = 1 .. mantissa bits, plus s0 itself"""
     bits = 23 if dtn == "float32" else 52
@@ -382,6 +406,7 @@ def kernel_inputs(case):
         else:
             vals.append(XMAX[dtn] * rng.choice([1.0, 1e-3, 1e-10]))
     vals = [min(v, x_cap(spec, dtn)) for v in vals]
+    vals = [v if (v == 0.0 or v >= x_floor(spec, dtn)) else x_floor(spec, dtn) for v in vals]
     if n and case.get("with_zero", True):
         vals[rng.randrange(n)] = 0.0
     if n > 1 and spec["kind"] == "huber":
@@ -1457,7 +1482,7 @@ SENTINEL = 777.25
 def lay_out(T: torch.Tensor, layout: str, rng: random.Random):
     """-> (V, base): V has the values of T in the requested memory layout, base is the storage owner to watch"""
     if layout == "transposed" and T.dim() >= 2:
-        base = T.transpose(0, -1).contiguous()
+        base = T.transpose(0, -1).clone(memory_format=torch.contiguous_format)      # always a copy (contiguous() may alias T)
         return base.transpose(0, -1), base
     if layout in ("strided", "transposed") and T.dim() >= 1:
         base = torch.full(tuple(T.shape[:-1]) + (2 * T.shape[-1] + 1,), SENTINEL, dtype=T.dtype)
@@ -1792,6 +1817,9 @@ def gen_cases(ctx: Ctx, rng, scale=1.0):
 def poly_admissible(case):
     R, _ = corrector_data(case)
     c1, c2, c3 = case["spec"]["p"]
+    xs_ = R.double().square().sum(-1).flatten().tolist()
+    if dtn_bad(case["dtype"], c1, c2, c3, max(xs_) if xs_ else 1.0):
+        return False
     for x in R.double().square().sum(-1).flatten().tolist():
         t1 = [c1, 2 * c2 * x, 3 * c3 * x * x]
         if sum(t1) <= 0 or sum(abs(t) for t in t1) > 4 * sum(t1):
